@@ -131,6 +131,15 @@ def check(ix, rep):
     from sa.rules import units as _units
     nr = _units.check_forwarding_reach(ix, rep)
     rep.floor('interpreters a sampling setting has to reach', nr, 2)
+    # a conversion that remembers its answers must forget them when the period changes (R-CACHE; no memo on today's tree)
+    from sa.rules import memo
+    if not memo.self_test():
+        raise AnalysisError('R-CACHE self-test: the memo idiom is not recognised')
+    for (mod_, cls_) in (('rtamt.semantics.discrete_time_interpreter', 'DiscreteTimeInterpreter'), ('rtamt.semantics.dense_time_interpreter', 'DenseTimeInterpreter')):
+        k_ = ix.find_class(mod_, cls_)
+        f_ = k_.methods.get('time_unit_transformer') if k_ is not None else None
+        if f_ is not None:
+            memo.check_method(ix, rep, k_, f_, 'converter')
     # 4. time-stamps never reach a handler; 5. output pairing
     pure.time_taint_offline(ix, rep, mon)
     pure.output_pairing(ix, rep, mon)
